@@ -6,6 +6,8 @@ class Band(scen.Follower):
     """Humans who may ring late, early within the row (when their place is up to `ahead` places away),
     and sometimes double-click (ringing the next stroke early)."""
 
+    stale_p = 0.0
+
     def __init__(self, s, bells, rng, late, ahead, double_p, scripted_lead=None, second=None):
         self.scripted_lead = scripted_lead      # this bell's row-0 strike is scripted in the scenario
         self.second = second                    # (time of the second Look To, bell, lag): that bell is late in its first row
@@ -36,6 +38,11 @@ class Band(scen.Follower):
                     s.push(t + lag, "internal", lambda tt, b=bell: s.human_strike(tt, b))
                     if self.rng.random() < self.double_p:
                         s.push(t + lag + 0.15, "internal", lambda tt, b=bell: s.human_strike(tt, b))
+                    if self.stale_p and self.rng.random() < self.stale_p:
+                        # a click with an out-of-date stroke (double click, second device) before or after the
+                        # real one: the server leaves the bell alone but still announces it
+                        dt = max(0.001, lag + self.rng.choice([-0.2, -0.05, 0.03, 0.1, 0.4, 1.0]))
+                        s.push(t + dt, "internal", lambda tt, b=bell: s.stale_click(tt, b))
         s.push(t + self.poll, "internal", lambda tt: self.tick(s, tt))
 
 
@@ -174,7 +181,13 @@ class C09(scen.WorldProp):
                 "erratic": [0.0, 0.003, 0.011, 0.2, 2.5]}[style]
         ahead = {"late": 0, "mixed": 1, "early": 4, "erratic": 2}[style]
         dbl = {"late": 0.0, "mixed": 0.05, "early": 0.1, "erratic": 0.15}[style]
-        return lambda s: [Band(s, req["humans"], rng, late, ahead, dbl, req.get("lead"))]
+        stale = {"late": 0.1, "mixed": 0.1, "early": 0.05, "erratic": 0.2}[style] if req["seed"] % 2 else 0.0
+
+        def make(s):
+            b = Band(s, req["humans"], rng, late, ahead, dbl, req.get("lead"))
+            b.stale_p = stale
+            return [b]
+        return make
 
     def nontrivial(self, req, reply):
         return scen.b2f(reply.get("delay_bits", 0)) > 0 if "delay_bits" in reply else len(scen.rings(reply)) > 4
